@@ -51,27 +51,27 @@ theorem sign_ne_of_mul_nonpos {x y : Int} (hx : x ≠ 0) (h : x * y ≤ 0) : Int
 
 /-! ### bisection -/
 
-theorem bisect2_unfold_left {f : Int → Int} {b e : Int} (h1 : 1 ≤ (halfEven (e - b)).natAbs)
-    (h2 : 0 < f b * f (b + halfEven (e - b))) : bisect2 f b e = bisect2 f (b + halfEven (e - b)) e := by
-  rw [bisect2]; simp [h1, h2]
+theorem bisect2wf_unfold_left {f : Int → Int} {b e : Int} (h1 : 1 ≤ (halfEven (e - b)).natAbs)
+    (h2 : 0 < f b * f (b + halfEven (e - b))) : bisect2wf f b e = bisect2wf f (b + halfEven (e - b)) e := by
+  rw [bisect2wf]; simp [h1, h2]
 
-theorem bisect2_unfold_right {f : Int → Int} {b e : Int} (h1 : 1 ≤ (halfEven (e - b)).natAbs)
-    (h2 : ¬ 0 < f b * f (b + halfEven (e - b))) : bisect2 f b e = bisect2 f b (b + halfEven (e - b)) := by
-  rw [bisect2]; simp [h1, h2]
+theorem bisect2wf_unfold_right {f : Int → Int} {b e : Int} (h1 : 1 ≤ (halfEven (e - b)).natAbs)
+    (h2 : ¬ 0 < f b * f (b + halfEven (e - b))) : bisect2wf f b e = bisect2wf f b (b + halfEven (e - b)) := by
+  rw [bisect2wf]; simp [h1, h2]
 
-theorem bisect2_unfold_stop {f : Int → Int} {b e : Int} (h1 : ¬ 1 ≤ (halfEven (e - b)).natAbs) :
-    bisect2 f b e = (b, e) := by
-  rw [bisect2]; simp [h1]
+theorem bisect2wf_unfold_stop {f : Int → Int} {b e : Int} (h1 : ¬ 1 ≤ (halfEven (e - b)).natAbs) :
+    bisect2wf f b e = (b, e) := by
+  rw [bisect2wf]; simp [h1]
 
 /-- the invariant of the `while` loop of `_bisect` -/
-theorem bisect2_spec (f : Int → Int) (b e : Int) :
-    (b ≤ e → b ≤ (bisect2 f b e).1 ∧ (bisect2 f b e).2 ≤ e ∧ (bisect2 f b e).2 - (bisect2 f b e).1 ≤ 1 ∧
-        (bisect2 f b e).1 ≤ (bisect2 f b e).2 ∧ (b < e → (bisect2 f b e).1 < (bisect2 f b e).2)) ∧
-    (e ≤ b → e ≤ (bisect2 f b e).2 ∧ (bisect2 f b e).1 ≤ b ∧ (bisect2 f b e).1 - (bisect2 f b e).2 ≤ 1 ∧
-        (bisect2 f b e).2 ≤ (bisect2 f b e).1 ∧ (e < b → (bisect2 f b e).2 < (bisect2 f b e).1)) ∧
-    Int.sign (f (bisect2 f b e).1) = Int.sign (f b) ∧
-    (f b * f e ≤ 0 → f (bisect2 f b e).1 * f (bisect2 f b e).2 ≤ 0) := by
-  fun_induction bisect2 f b e with
+theorem bisect2wf_spec (f : Int → Int) (b e : Int) :
+    (b ≤ e → b ≤ (bisect2wf f b e).1 ∧ (bisect2wf f b e).2 ≤ e ∧ (bisect2wf f b e).2 - (bisect2wf f b e).1 ≤ 1 ∧
+        (bisect2wf f b e).1 ≤ (bisect2wf f b e).2 ∧ (b < e → (bisect2wf f b e).1 < (bisect2wf f b e).2)) ∧
+    (e ≤ b → e ≤ (bisect2wf f b e).2 ∧ (bisect2wf f b e).1 ≤ b ∧ (bisect2wf f b e).1 - (bisect2wf f b e).2 ≤ 1 ∧
+        (bisect2wf f b e).2 ≤ (bisect2wf f b e).1 ∧ (e < b → (bisect2wf f b e).2 < (bisect2wf f b e).1)) ∧
+    Int.sign (f (bisect2wf f b e).1) = Int.sign (f b) ∧
+    (f b * f e ≤ 0 → f (bisect2wf f b e).1 * f (bisect2wf f b e).2 ≤ 0) := by
+  fun_induction bisect2wf f b e with
   | case1 b e h1 h2 ih =>
     have hs := halfEven_spec (e - b)
     obtain ⟨ih1, ih2, ih3, ih4⟩ := ih
@@ -93,9 +93,9 @@ theorem bisect2_spec (f : Int → Int) (b e : Int) :
     refine ⟨fun hbe => ?_, fun hbe => ?_, rfl, fun hp => hp⟩ <;> simp only <;> omega
 
 /-- the loop of `_bisect` is entered at most `log2 |end − begin| + 1` times: `2^passes + 2 ≤ 2·|end − begin|` -/
-theorem bisectSteps_bound (f : Int → Int) (b e : Int) :
-    bisectSteps f b e = 0 ∨ 2 ^ bisectSteps f b e + 2 ≤ 2 * (e - b).natAbs := by
-  fun_induction bisectSteps f b e with
+theorem bisectStepsWf_bound (f : Int → Int) (b e : Int) :
+    bisectStepsWf f b e = 0 ∨ 2 ^ bisectStepsWf f b e + 2 ≤ 2 * (e - b).natAbs := by
+  fun_induction bisectStepsWf f b e with
   | case1 b e h1 h2 ih =>
     have hs := halfEven_spec (e - b)
     right
@@ -109,6 +109,60 @@ theorem bisectSteps_bound (f : Int → Int) (b e : Int) :
     · rw [ih]; simp; omega
     · rw [pow_succ]; omega
   | case3 b e h1 => left; rfl
+
+/-- the fuel-bounded loop with at least `|end − begin|` passes allowed is the loop itself -/
+theorem bisectFuel_eq_wf (f : Int → Int) : ∀ (n : Nat) (b e : Int), (e - b).natAbs ≤ n → bisectFuel n f b e = bisect2wf f b e := by
+  intro n
+  induction n with
+  | zero =>
+    intro b e h
+    have hs := halfEven_spec (e - b)
+    rw [bisect2wf_unfold_stop (by omega)]; rfl
+  | succ n ih =>
+    intro b e h
+    have hs := halfEven_spec (e - b)
+    by_cases h1 : 1 ≤ (halfEven (e - b)).natAbs
+    · by_cases h2 : 0 < f b * f (b + halfEven (e - b))
+      · rw [bisect2wf_unfold_left h1 h2]; simp only [bisectFuel, h1, h2, if_true]; exact ih _ _ (by omega)
+      · rw [bisect2wf_unfold_right h1 h2]; simp only [bisectFuel, h1, h2, if_true, if_false]; exact ih _ _ (by omega)
+    · rw [bisect2wf_unfold_stop h1]; simp only [bisectFuel, h1, if_false]
+
+theorem bisectStepsFuel_eq_wf (f : Int → Int) : ∀ (n : Nat) (b e : Int), (e - b).natAbs ≤ n → bisectStepsFuel n f b e = bisectStepsWf f b e := by
+  intro n
+  induction n with
+  | zero =>
+    intro b e h
+    have hs := halfEven_spec (e - b)
+    rw [bisectStepsWf]; simp only [bisectStepsFuel]; rw [if_neg (by omega)]
+  | succ n ih =>
+    intro b e h
+    have hs := halfEven_spec (e - b)
+    rw [bisectStepsWf]
+    by_cases h1 : 1 ≤ (halfEven (e - b)).natAbs
+    · by_cases h2 : 0 < f b * f (b + halfEven (e - b))
+      · simp only [bisectStepsFuel, h1, h2, if_true]; rw [ih _ _ (by omega)]
+      · simp only [bisectStepsFuel, h1, h2, if_true, if_false]; rw [ih _ _ (by omega)]
+    · simp only [bisectStepsFuel, h1, if_false]
+
+theorem bisect2_eq_wf (f : Int → Int) (b e : Int) : bisect2 f b e = bisect2wf f b e :=
+  bisectFuel_eq_wf f _ b e (le_refl _)
+
+theorem bisectSteps_eq_wf (f : Int → Int) (b e : Int) : bisectSteps f b e = bisectStepsWf f b e :=
+  bisectStepsFuel_eq_wf f _ b e (le_refl _)
+
+/-- the invariant of the `while` loop of `_bisect`, for the executable definition -/
+theorem bisect2_spec (f : Int → Int) (b e : Int) :
+    (b ≤ e → b ≤ (bisect2 f b e).1 ∧ (bisect2 f b e).2 ≤ e ∧ (bisect2 f b e).2 - (bisect2 f b e).1 ≤ 1 ∧
+        (bisect2 f b e).1 ≤ (bisect2 f b e).2 ∧ (b < e → (bisect2 f b e).1 < (bisect2 f b e).2)) ∧
+    (e ≤ b → e ≤ (bisect2 f b e).2 ∧ (bisect2 f b e).1 ≤ b ∧ (bisect2 f b e).1 - (bisect2 f b e).2 ≤ 1 ∧
+        (bisect2 f b e).2 ≤ (bisect2 f b e).1 ∧ (e < b → (bisect2 f b e).2 < (bisect2 f b e).1)) ∧
+    Int.sign (f (bisect2 f b e).1) = Int.sign (f b) ∧
+    (f b * f e ≤ 0 → f (bisect2 f b e).1 * f (bisect2 f b e).2 ≤ 0) := by
+  rw [bisect2_eq_wf]; exact bisect2wf_spec f b e
+
+theorem bisectSteps_bound (f : Int → Int) (b e : Int) :
+    bisectSteps f b e = 0 ∨ 2 ^ bisectSteps f b e + 2 ≤ 2 * (e - b).natAbs := by
+  rw [bisectSteps_eq_wf]; exact bisectStepsWf_bound f b e
 
 /-! ### the stable sort -/
 
